@@ -118,6 +118,14 @@ theorem C09_terminates (E : Env α β υ ε σ) (m : Nat) (hc : E.clamp = true)
   have := mu_init pods ctrs
   omega
 
+/-- Fuel is only a proof device: with any two amounts of fuel at or above the bound the
+    repaired loop performs the very same run (so the statements below are about THE run). -/
+theorem C09_fuel_irrelevant (E : Env α β υ ε σ) (m : Nat) (hc : E.clamp = true)
+    (hπ : Shrinks m E.policy) (w : σ) (pods : List α) (ctrs : List β) (k : Nat) :
+    synchronize E (fuelBound pods ctrs + k) w pods ctrs =
+      synchronize E (fuelBound pods ctrs) w pods ctrs :=
+  run_mono E _ k w _ (C09_terminates E m hc hπ _ w pods ctrs (Nat.le_refl _))
+
 /-- **C09_complete.** The repaired loop gives up with "failed to synchronize plugin with
     split messages" only after the transport refused a message of at most `m` objects
     (consecutive pods and consecutive containers of the state). Contrapositive: a state in
@@ -176,6 +184,28 @@ theorem C09_policy (m : Nat) (hm : 2 ≤ m) : Shrinks m (policyFixed m) :=
   policyFixed_shrinks m hm
 
 example : ∃ π, Shrinks 8 π := ⟨policyFixed 8, C09_policy 8 (by decide)⟩
+
+/-- **C09_patched.** The property for the patched Go code as transcribed (`clamp`, `policyFixed 8`),
+    for every size oracle and limit, against the stub with any handler: the handler is called
+    exactly once with exactly the supplied state and its answer is returned — or the sender
+    gave up before any call, and then some message of at most 8 consecutive objects exceeds
+    the limit. -/
+theorem C09_patched (size : Chunk α β → Nat) (limit : Nat) (hlim : 0 < limit)
+    (f : List α → List β → Except ε (List υ)) (pods : List α) (ctrs : List β) :
+    let E : Env α β υ ε (RState α β) :=
+      { size := size, limit := limit, policy := policyFixed 8, clamp := true, peer := stubRPC (some f) }
+    let r := synchronize E (fuelBound pods ctrs) RState.init pods ctrs
+    (r.out = .failed .tooLarge ∧ r.world.calls = [] ∧
+        ∃ c : Chunk α β, c.pods <:+: pods ∧ c.ctrs <:+: ctrs ∧ c.count ≤ 8 ∧ limit < size c) ∨
+    (r.world.calls = [(pods, ctrs)] ∧ r.world.acc = none ∧
+      r.out = match f pods ctrs with
+        | .ok u => .done u
+        | .error e => .failed (.peer e)) := by
+  intro E r
+  have hπ : Shrinks 8 E.policy := C09_policy 8 (by decide)
+  rcases C09_delivery E 8 rfl hπ f rfl (fuelBound pods ctrs) pods ctrs (Nat.le_refl _) with ⟨h1, h2⟩ | h
+  · exact .inl ⟨h1, h2, C09_complete E 8 rfl hπ hlim _ _ pods ctrs h1⟩
+  · exact .inr h
 
 /-! ### Trace acceptance (what ties the sender model to the real executions) -/
 
